@@ -6,8 +6,12 @@ modes
                                              logic.context.Context(vars=..., svars=...), type_infer is called
   random <n> <out.ndjson> <seed>             seeded larger inputs: random well-typed terms (deeper, more binders) erased
                                              with random per-occurrence masks (every 7th with some free variables turned
-                                             into constants under definition, context.ctxt.defs), and long random
-                                             constraint conjunctions
+                                             into constants under definition, context.ctxt.defs), long random
+                                             constraint conjunctions, and then n HISTORY cases: the current theory
+                                             (kernel.theory.thy) is switched all the time between three scratch
+                                             theories that declare the same constant names at different types (one
+                                             name is a constant in two of them and a variable in the third); erasures
+                                             of terms well-typed in the current theory, and skeletons made for another
   corpus <out.ndjson> <limit> <seed>         statements of the theorems of the loaded library theory, erased with the
                                              four patterns, variables declared
 Event: {tid, key, fam, keep, declared, skel, ctx, sig, orig, outcome, cls, err, result}
@@ -157,7 +161,7 @@ class Log:
         self.tid = 0
         self.times = []
 
-    def case(self, fam, keep, declared, skel, ctx, orig):
+    def case(self, fam, keep, declared, skel, ctx, orig, extra=None):
         t0 = time.perf_counter()
         outcome, cls, err, result = run_one(skel, ctx)
         self.times.append(time.perf_counter() - t0)
@@ -165,6 +169,8 @@ class Log:
         ev = {"tid": self.tid, "key": "%s:%s:%s" % (fam, keep, digest([skel, ctx])), "fam": fam, "keep": keep,
               "declared": bool(declared), "skel": skel, "ctx": ctx, "sig": signature(skel, ctx), "orig": orig,
               "outcome": outcome, "cls": cls, "err": err, "result": result}
+        if extra:
+            ev.update(extra)
         self.f.write(json.dumps(ev, separators=(",", ":")) + "\n")
 
     def close(self):
@@ -222,10 +228,18 @@ class Gen:
     """Random well-typed closed terms in the structural encoding; every free variable name has one type."""
     BASE = [BOOL, NAT, INT, REAL, TA, lst(NAT), lst(TA), fun(NAT, NAT), fun(TA, BOOL), fun(NAT, BOOL)]
 
-    def __init__(self, rng):
+    def __init__(self, rng, insts=()):
         self.rng = rng
         self.vars = {}      # name -> type
         self.n = 0
+        self.insts = list(insts)    # instances of further constants: (name, [argument types], result type)
+
+    def inst_app(self, inst, d, env):
+        name, args, res = inst
+        t = ["const", name, fun(*(list(args) + [res]))]
+        for A in args:
+            t = ["comb", t, self.term(A, d, env)]
+        return t
 
     def var_of(self, T, svar=False):
         cands = [n for n, (U, s) in self.vars.items() if U == T and s == svar]
@@ -240,6 +254,9 @@ class Gen:
     def term(self, T, depth, env):
         rng = self.rng
         bounds = [i for i, U in enumerate(env) if U == T]
+        cands = [i for i in self.insts if i[2] == T and (depth > 0 or not i[1])]
+        if cands and rng.random() < 0.45:
+            return self.inst_app(rng.choice(cands), depth - 1, env)
         if depth <= 0 or rng.random() < 0.12:
             if bounds and rng.random() < 0.6:
                 return ["bound", rng.choice(bounds)]
@@ -445,7 +462,95 @@ def random_mode(n, out_path, seed):
             nv = rng.choice([3, 4, 5, 6])
             atoms = [atom(rng, nv) for _ in range(rng.choice([3, 4, 5, 6, 7, 8]))]
             log.case("randcs", "none", False, conj_of(atoms), NOCTX, NONE)
+    # (an event of a history is reproduced only by re-running the history: the event records how)
+    history_mode(max(600, n // 2), log, seed, {"gen": {"mode": "random", "n": n, "seed": seed}})
     log.close()
+
+
+# ---------------------------------------------------------------------------------- histories over several theories
+# Three scratch theories (copies of the loaded theory, extended with unchecked_extend) in which the SAME constant
+# names are declared at DIFFERENT types; `hv` is a constant in H0 and H2 and an ordinary variable in H1.
+LN, LA = lst(NAT), lst(TA)
+HIST_SIG = [
+    {"weight": fun(NAT, NAT), "hsel": fun(TA, TA, TA), "hrel": fun(NAT, NAT, BOOL), "hv": NAT},
+    {"weight": fun(LA, NAT), "hsel": fun(LA, TA), "hrel": fun(TA, LA, BOOL)},
+    {"weight": fun(fun(TA, NAT), LA, NAT), "hsel": fun(BOOL, TA, TA, TA), "hrel": fun(REAL, REAL, BOOL), "hv": BOOL},
+]
+# instances used by the generator: (name, argument types, result type)
+HIST_INST = [
+    [("weight", [NAT], NAT), ("hsel", [NAT, NAT], NAT), ("hsel", [BOOL, BOOL], BOOL), ("hsel", [LN, LN], LN),
+     ("hrel", [NAT, NAT], BOOL), ("hv", [], NAT)],
+    [("weight", [LN], NAT), ("weight", [LA], NAT), ("weight", [lst(BOOL)], NAT), ("hsel", [LN], NAT), ("hsel", [LA], TA),
+     ("hsel", [lst(BOOL)], BOOL), ("hrel", [NAT, LN], BOOL), ("hrel", [TA, LA], BOOL)],
+    [("weight", [fun(NAT, NAT), LN], NAT), ("weight", [fun(TA, NAT), LA], NAT), ("hsel", [BOOL, NAT, NAT], NAT),
+     ("hsel", [BOOL, REAL, REAL], REAL), ("hsel", [BOOL, BOOL, BOOL], BOOL), ("hrel", [REAL, REAL], BOOL), ("hv", [], BOOL)],
+]
+
+
+def history_mode(n, log, seed, gen):
+    """One process, one history: the current theory (theory.thy) is switched between the scratch theories all the
+    time; in each, erasures of terms that are well-typed THERE are inferred (fam "hist"), and so are fully erased
+    terms that were generated for ANOTHER theory (fam "histx": mostly ill-typed here).  The signature recorded in an
+    event is read from the theory that is current at the call."""
+    import copy as _copy
+    from kernel import extension
+    rng = random.Random(seed * 15485863 + 8)
+    base = theory.thy
+    ths = []
+    for sig in HIST_SIG:
+        th = _copy.copy(base)
+        th.unchecked_extend([extension.Constant(name, decT(T)) for name, T in sorted(sig.items())])
+        ths.append(th)
+    goals = [BOOL, BOOL, NAT, NAT, REAL, LN, TA, fun(NAT, BOOL), fun(TA, NAT)]
+    prev_terms = [[], [], []]
+    k = 0
+    try:
+        for i in range(n):
+            k = (k + rng.choice([1, 1, 2, 0])) % 3            # mostly a switch, sometimes the same theory again
+            theory.thy = ths[k]
+            tag = "H%d" % k
+            if i % 4 == 3 and any(prev_terms[j] for j in range(3) if j != k):
+                j = rng.choice([j for j in range(3) if j != k and prev_terms[j]])
+                t = rng.choice(prev_terms[j])
+                if k == 1:
+                    t = const_to_var(t, "hv")                 # hv is not a constant in H1: the parser would make it a variable
+                log.case("histx", "none@%s<-H%d" % (tag, j), False, erase(t, rng, 1, 1, 1), NOCTX, NONE, gen)
+                continue
+            g = Gen(rng, HIST_INST[k])
+            if k == 1:
+                g.vars["hv"] = (rng.choice([NAT, LN, BOOL]), False)
+            inst = rng.choice(HIST_INST[k])
+            if rng.random() < 0.5:
+                t = g.inst_app(inst, rng.choice([1, 2, 3]), [])
+                if inst[2] != BOOL and rng.random() < 0.7:
+                    t = g.bin("equals", fun(inst[2], inst[2], BOOL), t, g.term(inst[2], 2, []))
+            else:
+                t = g.term(rng.choice(goals), rng.choice([2, 3, 4]), [])
+            prev_terms[k].append(t)
+            declared = rng.random() < 0.75
+            mode = rng.choice(["none", "none", "vars", "mixed", "cb"])
+            if mode == "none":
+                s = erase(t, rng, 1, 1, 1)
+            elif mode == "vars":
+                s = erase(t, rng, 0, 1, 1)
+            elif mode == "cb":
+                s = erase(t, rng, 1, 0, 0)
+            else:
+                s = erase(t, rng, rng.random(), 0.5 + rng.random() / 2, rng.random())
+            log.case("hist", "%s@%s" % (mode, tag), declared, s, decl_ctx(t) if declared else NOCTX, t, gen)
+    finally:
+        theory.thy = base
+
+
+def const_to_var(t, name):
+    k = t[0]
+    if k == "const" and t[1] == name:
+        return ["var", name, t[2]]
+    if k == "comb":
+        return ["comb", const_to_var(t[1], name), const_to_var(t[2], name)]
+    if k == "abs":
+        return ["abs", t[1], const_to_var(t[2], name)]
+    return t
 
 
 # ---------------------------------------------------------------------------------- library corpus
